@@ -344,18 +344,18 @@ class World(object):
         if t == 'PUBLISH':
             r = self._req_by_tag(p['topic'], 't')
             if r is not None:
-                r.tx.append((self.step, conn.idx, p['dup'], p['msgId'], p['raw'], self.clock.rightNow))
+                r.tx.append((self.step, conn.idx, p['dup'], p['msgId'], p['raw'], self.clock.rightNow, self.jitter))
         elif t in ('SUBSCRIBE', 'UNSUBSCRIBE'):
             tp = p['topics'][0] if p['topics'] else None
             if t == 'SUBSCRIBE' and tp is not None:
                 tp = tp[0]
             r = self._req_by_tag(tp, 's' if t == 'SUBSCRIBE' else 'u') if tp else None
             if r is not None:
-                r.tx.append((self.step, conn.idx, p['dup'], p['msgId'], p['raw'], self.clock.rightNow))
+                r.tx.append((self.step, conn.idx, p['dup'], p['msgId'], p['raw'], self.clock.rightNow, self.jitter))
         elif t == 'PUBREL':
             for q in reversed(self.reqs):
                 if q.kind == 'pub' and q.addr == conn.addr and q.msgId == p['msgId'] and q.qos == 2:
-                    q.rel_tx.append((self.step, conn.idx, p['dup'], p['msgId'], p['raw'], self.clock.rightNow))
+                    q.rel_tx.append((self.step, conn.idx, p['dup'], p['msgId'], p['raw'], self.clock.rightNow, self.jitter))
                     r = q
                     break
         elif t == 'DISCONNECT':
@@ -521,9 +521,12 @@ class World(object):
 
         def go(r):
             topic = 't/%d' % r.idx
-            body = 'm%d' % r.idx if pkind == 'short' else PAYLOADS[pkind].decode('latin-1')
-            if pkind == 'big':
+            if pkind == 'short':
+                body = 'm%d' % r.idx
+            elif pkind == 'big':
                 body = 'm%d' % r.idx + 'x' * 1000
+            else:
+                body = PAYLOADS[pkind].decode('latin-1')
             if payload_type == 'bytearray':
                 body = bytearray(body.encode('utf-8'))
             r.args['topic'], r.args['payload'] = topic, rc.as_bytes(body)
@@ -674,6 +677,11 @@ class World(object):
         if nd is not None and self.clock.rightNow + dt >= nd - 1e-9:
             raise RuntimeError('wait(%r) would cross a deadline' % dt)
         self.clock.rightNow += dt
+
+    def ev_setid(self, a, v):
+        """Place the factory's identifier counter (public attribute) -- stands for the thousands of completed
+        requests that would otherwise be needed to get near the 16-bit wrap."""
+        self.factory(a).id = v
 
     def ev_jit(self, v):
         Jitter.value = self.jitter = v
